@@ -23,6 +23,12 @@ def expr_events(e, node):
                 visit(c)
             out.append({'t': 'write', 'lhs': x[2], 'op': x[1][-2:], 'rhs': None, 'node': node})
             return
+        if k == 'call':
+            st = ir.as_stack(x)
+            if st is not None:      # `$(T, ...)`: only the field initialisers are evaluated user code
+                for f in st[1]:
+                    visit(f)
+                return
         for c in ir.children(x):
             visit(c)
         if k == 'call':
